@@ -127,7 +127,7 @@ PROPS["C20"] = {
 
 # index of the fixed (side to move, enemy king square) shape = turn*64 + square. White to move with the
 # enemy king on e8 = 60, Black to move with the enemy king on e1 = 64 + 4 = 68.
-C02_FAM = {"pattern": r"_(?:ek|k)_(\d+)$", "count": 1, "always": {"*": [60]}, "thorough_all": False, "thorough_count": 6}
+C02_FAM = {"pattern": r"_(?:ek|k)_(\d+)$", "count": 1, "always": {"*": [60]}, "thorough_all": False, "thorough_count": 3}
 C02_GRP = {"crate": "core", "module": "c02", "flags": NODEF + STUB, "timeout_q": 1200, "timeout_t": 3000, "mem_q": 8}
 PROPS["C04"] = {
     "title": "Position hash is a pure function of the position",
@@ -154,7 +154,7 @@ C02_ASSUME = ["validity predicate V (C06's list + no pawn on rank 1/8) on the pr
               "<= 8 of the mover's sliders aligned with the enemy king after the move (loop bound of the incremental check/pin code; unwinding assertions on)"]
 C02_BOUNDS_Q = ("per query: side to move and ENEMY king square concrete (index = turn*64+square), everything else symbolic: all placements of all other pieces incl. the mover's king, rights, en-passant file, clocks, the move (from,to,promotion - legal AND illegal triples) "
                 "and the pre-state's cached pin/check/hash values. quick: 6 piece kinds x {White to move, enemy king e8} + 1 VERIF_SEED-chosen shape per kind")
-C02_BOUNDS_T = C02_BOUNDS_Q.replace("+ 1 VERIF_SEED-chosen shape per kind", "+ 6 VERIF_SEED-chosen shapes per kind")
+C02_BOUNDS_T = C02_BOUNDS_Q.replace("+ 1 VERIF_SEED-chosen shape per kind", "+ 3 VERIF_SEED-chosen shapes per kind")
 PROPS["C02"] = {
     "title": "Applying a legal move yields the correct successor position",
     "groups": [dict(C02_GRP, only="^c02_", seeded_family=C02_FAM),
@@ -177,7 +177,7 @@ PROPS["C03"] = {
     "functions": ["chess_movegen::Board::move_unchecked_into (incremental checkers/pinned: direct knight/pawn checks, promotion, en-passant, castling rook, aligned sliders loop)", "Board::update_pin_info (from scratch, used by parser and builder)",
                   "Board::{in_check,state}", "reference pins/checkers (x-ray form) == ray-walking form"],
     "bounds_quick": C02_BOUNDS_Q + "; from-scratch query: side to move and the MOVER's king square concrete (e1/White, e8/Black + 1 seeded), <= 8 enemy sliders on the king's rays; state(): emptiness of the move list, checkers, half-move clock all free",
-    "bounds_thorough": C02_BOUNDS_T + "; from-scratch query: 8 seeded king squares",
+    "bounds_thorough": C02_BOUNDS_T + "; from-scratch query: 3 seeded king squares",
     "outside": "shapes not selected (see C02); Display/Debug text renderings (core::fmt is not executed symbolically: all observers are functions of the fields, and every field of a moved board is shown equal to the from-scratch value); the link 'move list empty <=> no legal move' is C01 + C10",
     "stubs": C02_STUBS + ["chess_movegen::Board::legals -> move list whose emptiness is a free boolean (state() classification query only)"], "assumptions": C02_ASSUME,
     "level_text": "After every legal move of a symbolic valid position the incrementally maintained checkers and pinned sets are compared with from-scratch reference definitions on the successor (direct, discovered, castling-rook, promotion and en-passant-discovered checks are just values of the move; cover witnesses show they are inside the space), "
@@ -303,11 +303,11 @@ PROPS["C15"] = {
     "groups": [dict(ENG, module="c15", jobs=3, mem_q=14)],
     "functions": ["chess_bot::ChessBot::{make_move,set_board,board} (impl of chess_api::ChessEngineTrait)", "chess_engine::ThreeFold::{new,add,get} over std HashMap<Board,u8,IntHashBuilder> + Hash/Eq for Board", "chess_api::StableChessMove -> ChessMove"],
     "bounds_quick": "gate: fully symbolic board, symbolic stable move, free legality answer and free repetition answer",
-    "bounds_thorough": "as quick, plus the real repetition table: 5 insertions, each of one of two distinct positions (symbolic choice per step) - measured: does not finish in 25 min (std HashMap under CBMC), so this clause is effectively NOT covered",
+    "bounds_thorough": "as quick (the real repetition table - a std HashMap - does not finish under CBMC even for a fully concrete sequence of four insertions: 25 min; its 'third occurrence' behaviour is NOT covered by any tier)",
     "outside": "the dlopen / abi_stable trait-object boundary (FFI) - the methods behind it are what runs; repetition histories longer than 5 insertions / more than 2 distinct positions; that the proposed move is legal is C11; Board::is_legal and make-move are free/marker functions here (their meaning: C01, C02)",
     "stubs": ["Board::is_legal -> free boolean", "Board::move_unchecked_into -> marker transformation", "ThreeFold::add -> recorder with a free answer (gate queries only; the table query runs the real HashMap)"], "assumptions": [],
     "level_text": "The real plugin methods run on a symbolic board and move: applied iff legal, otherwise position unchanged and reported invalid; the board reported is the make-move result; the repetition table is asked exactly once, with the new position, iff the move was applied, and its answer is the threefold flag; set_board and the constructor count the position they install. "
-                  "The repetition table itself (std HashMap) is attempted in the thorough tier only and did not finish within the budget: its 'true exactly on the third insertion' behaviour is NOT decided (stated).",
+                  "The repetition table itself (std HashMap) is NOT decided: no query over it finishes (stated); its counter arithmetic was repaired after a native reproduction (known_findings.json).",
     "level_note": "Long reversible manoeuvres are covered by the one-step structure (gate + counter + hash purity C04), not by exploring 8-ply histories.",
     "design_ref": "DESIGN.md section 4 C15",
 }
@@ -346,15 +346,15 @@ PROPS["C01"] = {
     "title": "Generated moves are exactly the legal moves of chess",
     "groups": [
         {"crate": "core", "module": "lemmas", "timeout_q": 600},
-        {"crate": "core", "module": "c01_units", "flags": NODEF + STUB, "timeout_q": 900, "timeout_t": 3000, "mem_q": 10, "mem_t": 40, "jobs": 8, "jobs_t": 2,
-         "seeded_family": {"pattern": r"_k_(\d+)$", "count": 1, "always": KING_ALWAYS, "thorough_all": False, "thorough_count": 6}},
+        {"crate": "core", "module": "c01_units", "flags": NODEF + STUB, "timeout_q": 900, "timeout_t": 6000, "mem_q": 10, "mem_t": 16, "jobs": 8, "jobs_t": 4,
+         "seeded_family": {"pattern": r"_k_(\d+)$", "count": 1, "always": KING_ALWAYS, "thorough_all": False, "thorough_count": 3}},
     ],
     "functions": ["chess_movegen iter/pieces.rs: PieceType::legals::<IN_CHECK|NO_CHECK> for Knight/Bishop/Rook/Queen, Pawn::legals (pushes, captures, promotion flag, en passant via is_legal_en_passant), King::king_legals (steps + castling), check_mask, is_legal_king_position",
                   "each through Board::verif_unit_legals(unit, in_check, mask) with a symbolic destination mask (legals_masked semantics)"],
     "bounds_quick": "per query: generator unit (6 piece kinds x in-check / not-in-check = 12) with side to move and the MOVER's king square concrete (index = turn*64+square) and everything else symbolic: all other pieces, rights, en-passant file, "
                     "the probe move (from,to,promotion) and the destination mask. <= 2 pieces of the unit's kind for the mover (each source square is handled by its own loop iteration), <= 8 enemy sliders in the attacked-square test. "
                     "quick: 1 VERIF_SEED-chosen king square per unit, plus e1/White and e8/Black for the king unit (castling) and the attacked-square unit",
-    "bounds_thorough": "as quick with 6 seeded king squares per unit, and the variants with symbolic side to move and king square (`_t_all`) for the non-king units",
+    "bounds_thorough": "as quick with 3 seeded king squares per unit, plus the END-TO-END query: the real legals_masked (dispatch on the number of checkers + all units) on two kings and <= 2 further pieces of any kind, White king e1 (35 min, 10 GB)",
     "outside": "more than 2 pieces of one kind moving in the same query (the per-piece loop body reads only the board, so two pieces exercise every interaction between loop iterations: ordering, list push); king squares not selected in this run; "
                "the dispatch in collect_moves on the number of checkers (3 lines, read); Board::is_legal = legals().any() is C10's next query; Display text of moves",
     "stubs": ["chess_lookup::{between,line,rook_moves,bishop_moves,rook_rays,bishop_rays,knight_moves,king_moves,pawn_moves,pawn_attacks_moves} -> loop-free geometry (spec/fast.rs), proven equal to the loop definitions (lemmas) and to the real tables (C08/C09)",
